@@ -94,4 +94,61 @@ theorem attempts_le (A : AF) (h : A.retryLoopOp = .le) (maxRetry : Nat) : attemp
     simp [Cmp.eval]
   rw [h1, h2]; simp
 
+/-- the loop invariant: the number of requests sent equals the retry counter -/
+theorem visitFrom_bound (A : AF) (h1 : A.retryLoopOp = .le) (maxRetry : Nat) (site : Nat → Attempt) (fuel r : Nat) (hr : r ≤ maxRetry + 1) :
+    (visitFrom A maxRetry site fuel r r).1 ≤ maxRetry + 1 := by
+  induction fuel generalizing r with
+  | zero => simpa [visitFrom] using hr
+  | succ f ih =>
+    unfold visitFrom
+    by_cases hc : A.retryLoopOp.eval r maxRetry = true
+    · have hle : r ≤ maxRetry := by
+        rw [h1] at hc
+        simp only [Cmp.eval, decide_eq_true_eq] at hc
+        omega
+      simp only [hc, Bool.not_true, Bool.false_eq_true, if_false]
+      split
+      · split
+        · exact ih (r + 1) (by omega)
+        · simp only; omega
+      · split
+        · split
+          · exact ih (r + 1) (by omega)
+          · simp only; omega
+        · simp only; omega
+    · simp only [hc, Bool.not_false, if_true]
+      exact hr
+
+/-- **at most max-retry + 1 requests per visit**, whatever the site answers on each attempt -/
+theorem visit_bound (A : AF) (h1 : A.retryLoopOp = .le) (maxRetry : Nat) (site : Nat → Attempt) :
+    (visit A maxRetry site).1 ≤ maxRetry + 1 := by
+  unfold visit
+  split
+  · exact visitFrom_bound A h1 maxRetry site _ 0 (by omega)
+  · simp
+
+/-- with the guards `retry <= MaxRetry` / `retry < MaxRetry` the loop never ends by its own condition: every
+visit ends with the node Failed or with a kept response -/
+theorem visitFrom_ends (A : AF) (h1 : A.retryLoopOp = .le) (h2 : A.retryInnerOp = .lt) (maxRetry : Nat) (site : Nat → Attempt)
+    (fuel r n : Nat) (hr : r ≤ maxRetry) (hf : maxRetry + 1 ≤ fuel + r) :
+    (visitFrom A maxRetry site fuel r n).2 ≠ .fellThrough := by
+  induction fuel generalizing r n with
+  | zero => omega
+  | succ f ih =>
+    unfold visitFrom
+    have hc : A.retryLoopOp.eval r maxRetry = true := by
+      rw [h1]; simp only [Cmp.eval, decide_eq_true_eq]; omega
+    simp only [hc, Bool.not_true, Bool.false_eq_true, if_false]
+    have hag : A.retryInnerOp.eval r maxRetry = true → r + 1 ≤ maxRetry := by
+      rw [h2]; simp only [Cmp.eval, decide_eq_true_eq]; omega
+    split
+    · split
+      · rename_i ha; exact ih (r + 1) (n + 1) (hag ha) (by omega)
+      · simp
+    · split
+      · split
+        · rename_i ha; exact ih (r + 1) (n + 1) (hag ha) (by omega)
+        · simp
+      · simp
+
 end Zeno.Model.Warc
